@@ -16,6 +16,8 @@ def _pairs(tier):
     bases = [b for b in H.fasync_bases() if b[0].startswith(("chain.BL", "chain.NL.w1", "cyc2.BL", "chain3.BL-BL"))]
     if tier == "quick":
         bases = bases[seed() % 7 :: 7]
+    else:
+        bases = bases[seed() % 2 :: 2]  # every second timing base (about 50 000 episodes)
     for bn, b in bases:
         devs = [d for d in H.deviations(b, ticks=(0, 1, 2)) if d[3] > 0]
         if tier == "quick":
